@@ -328,6 +328,11 @@ impl IntoType for Number {
     fn for_type(&self) -> Result<TypeLayout> {
         Ok(match self {
             Self::Byte(_) => TypeLayout::Native(super::r#type::NativeType::Byte),
+            // an integer literal that does not fit 32 bits is evaluated as a bigint
+            // (see `try_constexpr_eval`), so that is its type too
+            Self::Integer(digits) if digits.parse::<i32>().is_err() => {
+                TypeLayout::Native(super::r#type::NativeType::BigInt)
+            }
             Self::Integer(_) => TypeLayout::Native(super::r#type::NativeType::Int),
             Self::BigInt(_) => TypeLayout::Native(super::r#type::NativeType::BigInt),
             Self::Float(_) => TypeLayout::Native(super::r#type::NativeType::Float),
